@@ -2410,6 +2410,8 @@ impl LineBuf {
 						continue
 					}
 					let line = self.slice(start..end).unwrap_or_default();
+					// The pattern is matched against the line without its terminator, so that '$' and '^$' work
+					let line = line.strip_suffix('\n').unwrap_or(line);
 
 					match motion.1 {
 						Motion::NotGlobal(_,_) => {
